@@ -1,7 +1,53 @@
-(* C08 -- placeholder until the lemmas land *)
-From Tola Require Import Py.Base Model.Fragment Model.Scaffold Model.Namer Model.Remap.
+(* C08 -- An unedited Pretext map reproduces the input assembly.
+   Only statements, each closed by [exact] of a lemma from Proofs/.  PARTIAL:
+   proved here are the ingredients that make a null map a no-op for each
+   scaffold; the end-to-end identity (names, order, single primary assembly,
+   zero statistics) is decided by the correspondence of the whole pipeline
+   model and the oracle on every run. *)
+From Tola Require Import Py.Base Model.Fragment Model.Scaffold Model.Lookup Model.OverlapResult
+  Model.Namer Model.Remap Proofs.NullMapAndCuts Proofs.Junctions.
 
-Lemma C08_multi_chr_list_example :
-  multi_chr_list (s "SUPER_9") 2 = [s "SUPER_9A"; s "SUPER_9B"] /\ multi_chr_list (s "SUPER_9") 1 = [s "SUPER_9"].
+(* a bait [1, E] whose end lies inside or beyond the last row of a scaffold
+   without terminal gaps returns ALL its rows, with start 1 and end = length *)
+Theorem C08_whole_scaffold_bait : forall rows E,
+  rows <> [] -> pos_rows rows ->
+  (exists f t, rows = RF f :: t) -> (exists f t, rows = t ++ [RF f]) ->
+  rows_len (removelast rows) < E ->
+  find_overlaps rows 1 E = Ok (Some (mkFound 1 (rows_len rows) rows)).
+Proof. exact whole_scaffold_bait. Qed.
+Print Assumptions C08_whole_scaffold_bait.
+
+(* nothing is trimmed when the bait end is within one error length of the scaffold end *)
+Theorem C08_trim_large_noop : forall bait fo err,
+  f_start bait = fo_start fo -> 0 <= err -> fo_end fo - f_end bait <= err ->
+  trim_large_overhangs (ovr_of_found bait fo) err = Ok (ovr_of_found bait fo).
+Proof. exact trim_large_noop. Qed.
+Print Assumptions C08_trim_large_noop.
+
+(* combined, for every texel size n/d and Pretext's rounding of the scaffold
+   end by less than one texel: the overlap result is the whole scaffold *)
+Theorem C08_null_bait_result : forall rows name E strand tags n d,
+  rows <> [] -> pos_rows rows -> (exists f t, rows = RF f :: t) -> (exists f t, rows = t ++ [RF f]) ->
+  1 <= E -> rows_len (removelast rows) < E -> 0 <= n -> 0 < d ->
+  d * (rows_len rows - E) < n ->
+  let bait := mkFrag (-1) name 1 E strand tags in
+  exists fo, find_overlaps rows 1 E = Ok (Some fo) /\ fo_rows fo = rows /\ fo_start fo = 1
+    /\ fo_end fo = rows_len rows
+    /\ trim_large_overhangs (ovr_of_found bait fo) (error_length (n, d)) = Ok (ovr_of_found bait fo).
+Proof. exact null_bait_result. Qed.
+Print Assumptions C08_null_bait_result.
+
+(* unchanged scaffolds have unchanged junction sets (also when presented
+   reversed), so the statistics see no break and no join *)
+Theorem C08_junction_set_reverse : forall rows js jr,
+  Forall pm (frags_of rows) ->
+  junction_set repaired rows = Ok js -> junction_set repaired (rows_reverse rows) = Ok jr ->
+  forall j, In j js <-> In j jr.
+Proof. exact junction_set_reverse. Qed.
+Print Assumptions C08_junction_set_reverse.
+
+(* non-vacuity *)
+Example C08_example :
+  let rows := [RF (mkFrag 0 (s "c1") 1 1000 1 []); RG (mkGap 200 (s "scaffold")); RF (mkFrag 1 (s "c2") 1 30 (-1) [])] in
+  find_overlaps rows 1 1221 = Ok (Some (mkFound 1 1230 rows)) /\ error_length (198700, 10000) = 20.
 Proof. vm_compute. split; reflexivity. Qed.
-Print Assumptions C08_multi_chr_list_example.
